@@ -151,13 +151,17 @@ func CheckSuccess(p transaction.Params, all []coin.UxOut, headTime uint64, txn *
 			x := new(big.Rat).Mul(share, new(big.Rat).SetInt(rem(h)))
 			return new(big.Int).Quo(x.Num(), x.Denom())
 		}
-		allowed := []*big.Int{alloc(inHours)}
-		if len(uxIn) >= 2 {
-			last, _ := rules.Accrued(uxIn[len(uxIn)-1], headTime)
-			allowed = append(allowed, alloc(new(big.Int).Sub(inHours, last)))
-		}
+		var allowed []*big.Int
 		if changeCoins.Sign() == 0 {
-			allowed = append(allowed, rem(inHours))
+			// no change output exists that could carry the rest: everything that is not burnt goes to the receivers
+			// (the documented fallback to share factor 1)
+			allowed = []*big.Int{rem(inHours)}
+		} else {
+			allowed = []*big.Int{alloc(inHours)}
+			if len(uxIn) >= 2 {
+				last, _ := rules.Accrued(uxIn[len(uxIn)-1], headTime)
+				allowed = append(allowed, alloc(new(big.Int).Sub(inHours, last)))
+			}
 		}
 		ok := false
 		for _, a := range allowed {
